@@ -66,10 +66,13 @@ def run(ctx) -> None:
     cost_keys = {k for k in reads if attr_of(k) in COST_ATTRS or attr_of(k) in ('CAPEX_heat_electricity_plant_ratio',)}
     sites = def_sites(econ.node)
     deps, why = deps_of(econ.node, cost_keys, sites=sites)
-    leak = sorted(k for k in deps if attr_of(k) in price and k.endswith('.value'))
+    def _obj(k: str) -> str:
+        ps = k.split('.')
+        return ps[-2] if len(ps) >= 2 and ps[-1] in ('value', 'Provided', 'Valid') else ps[-1]
+    leak = sorted(k for k in deps if _obj(k) in price and k.endswith(('.value', '.Provided', '.Valid')))
     for k in leak:
         s = why.get(k)
-        ctx.bad('H1', f'Economics.Calculate/cost-depends-on:{attr_of(k)}', f'{econ.module.rel}:{s.stmt.lineno if s else econ.node.lineno}',
+        ctx.bad('H1', f'Economics.Calculate/cost-depends-on:{_obj(k)}', f'{econ.module.rel}:{s.stmt.lineno if s else econ.node.lineno}',
                 f'a cost total read by the levelized-cost formula depends on {k} through `{norm(s.stmt)[:70] if s else "?"}`: changing only '
                 f'sale prices would change a levelized cost')
     ctx.check(not leak, 'H1', 'Economics.Calculate/cost-side-price-free', econ.where, 'see above',
